@@ -50,7 +50,9 @@ func parsePkParams(line string) pkParams {
 	return pkParams{NActors: int(atoi(m["actors"])), Fund: atoi(m["fund"]), BF: atoi(m["bf"]), TF: atoi(m["tf"]), EF: atoi(m["ef"])}
 }
 
-func rawDec(raw int64) math.LegacyDec { return math.LegacyNewDecFromBigIntWithPrec(math.NewInt(raw).BigInt(), 18) }
+func rawDec(raw int64) math.LegacyDec {
+	return math.LegacyNewDecFromBigIntWithPrec(math.NewInt(raw).BigInt(), 18)
+}
 func rawDecS(s string) math.LegacyDec {
 	i, ok := math.NewIntFromString(s)
 	if !ok {
@@ -757,46 +759,46 @@ func shufflePerm(rng int64, n int) []int {
 // ---- snapshot --------------------------------------------------------------------------------
 
 type pkPacket struct {
-	Name, Key          string
-	PendKey            string
-	Pending            bool
-	Ra                 int
-	PH                 uint64
-	Type               string
-	Chan               int
-	Seq                uint64
-	Target, Orig       string // actor names
-	Amount             math.Int
-	Denom              int
-	Unescrow, AckErr   bool
-	Failed             bool
-	TargetAddr         string
+	Name, Key        string
+	PendKey          string
+	Pending          bool
+	Ra               int
+	PH               uint64
+	Type             string
+	Chan             int
+	Seq              uint64
+	Target, Orig     string // actor names
+	Amount           math.Int
+	Denom            int
+	Unescrow, AckErr bool
+	Failed           bool
+	TargetAddr       string
 }
 
 type pkOrder struct {
-	ID, Name, PendKey  string
-	Pending            bool
-	Price, Fee         math.Int
-	Denom              int
-	Recipient          string
-	RecipientAddr      string
-	Fulfiller          string
-	FulfillerAddr      string
-	Creation           uint64
-	Track              string // P | F | ?
-	RollappID          string
-	TrackingKey        string
-	Type               string
+	ID, Name, PendKey string
+	Pending           bool
+	Price, Fee        math.Int
+	Denom             int
+	Recipient         string
+	RecipientAddr     string
+	Fulfiller         string
+	FulfillerAddr     string
+	Creation          uint64
+	Track             string // P | F | ?
+	RollappID         string
+	TrackingKey       string
+	Type              string
 }
 
 type pkLP struct {
-	ID                          uint64
-	Addr, Ra                    string
-	AddrS                       string
-	RollappID                   string
-	Denom                       int
-	Max, MinFee, Limit, Spent   math.Int
-	Age                         uint64
+	ID                        uint64
+	Addr, Ra                  string
+	AddrS                     string
+	RollappID                 string
+	Denom                     int
+	Max, MinFee, Limit, Spent math.Int
+	Age                       uint64
 }
 
 type pkCrit struct {
